@@ -253,6 +253,12 @@ func parseJSONString(s string) (string, bool, error) {
 }
 
 func parseNumber(s string) (any, bool) {
+	if !isDecimal(s) {
+		// strconv.ParseFloat also accepts exponents, hex floats, underscores,
+		// "Inf" and "NaN", none of which is a number in the query grammar
+		// (and the last two cannot be marshaled to JSON).
+		return nil, false
+	}
 	z, err := strconv.ParseInt(s, 10, 64)
 	if err == nil {
 		return z, true
@@ -262,6 +268,35 @@ func parseNumber(s string) (any, bool) {
 		return v, true
 	}
 	return nil, false
+}
+
+// isDecimal reports whether s is an optionally signed run of decimal digits
+// with an optional fractional part: [+-]?[0-9]+(\.[0-9]+)?
+func isDecimal(s string) bool {
+	i := 0
+	if i < len(s) && (s[i] == '+' || s[i] == '-') {
+		i++
+	}
+	n := 0
+	for i < len(s) && s[i] >= '0' && s[i] <= '9' {
+		i++
+		n++
+	}
+	if n == 0 {
+		return false
+	}
+	if i < len(s) && s[i] == '.' {
+		i++
+		n = 0
+		for i < len(s) && s[i] >= '0' && s[i] <= '9' {
+			i++
+			n++
+		}
+		if n == 0 {
+			return false
+		}
+	}
+	return i == len(s)
 }
 
 func parseConstant(s string) (any, bool) {
